@@ -314,6 +314,54 @@ func (c *Ctx) Apalache(module, what string, expectViolation bool, args ...string
 	fmt.Printf("APALACHE %s %s: %s, %.1fs\n", module, what, map[bool]string{true: "counterexample as expected", false: "holds"}[expectViolation], time.Since(t0).Seconds())
 }
 
+// TLAPS runs the TLA+ proof system on a proof module. expectFailure: a negative control whose assumptions describe a
+// wrong design; at least one obligation has to stay unproved.
+func (c *Ctx) TLAPS(module, what string, expectFailure bool) {
+	if os.Getenv("VERIF_SKIP_MC") == "1" { // development aid only
+		return
+	}
+	c.mu.Lock()
+	c.tlcSeq++
+	seq := c.tlcSeq
+	c.mu.Unlock()
+	dir := filepath.Join(c.Work, fmt.Sprintf("tlaps-%d", seq))
+	os.MkdirAll(dir, 0o755)
+	// tlapm writes its cache next to the module: work on a private copy of the specification directory
+	ents, _ := os.ReadDir(filepath.Join(c.Work, "spec"))
+	for _, e := range ents {
+		if strings.HasSuffix(e.Name(), ".tla") {
+			if b, err := os.ReadFile(filepath.Join(c.Work, "spec", e.Name())); err == nil {
+				os.WriteFile(filepath.Join(dir, e.Name()), b, 0o644)
+			}
+		}
+	}
+	cmd := exec.Command("timeout", "900", "tlapm", "--threads", "8", "--cleanfp", module)
+	cmd.Dir = dir
+	var out bytes.Buffer
+	cmd.Stdout = &out
+	cmd.Stderr = &out
+	t0 := time.Now()
+	cmd.Run()
+	os.RemoveAll(dir)
+	o := out.String()
+	m := regexp.MustCompile(`All (\d+) obligations proved`).FindStringSubmatch(o)
+	f := regexp.MustCompile(`(\d+)/(\d+) obligations failed`).FindStringSubmatch(o)
+	if (!expectFailure && m == nil) || (expectFailure && f == nil) {
+		c.Infra("TLAPS %s (%s): unexpected outcome\n%s", module, what, tail(o, 30))
+		return
+	}
+	outcome := ""
+	if m != nil {
+		outcome = "all " + m[1] + " obligations proved"
+	} else {
+		outcome = f[1] + " of " + f[2] + " obligations unproved (expected)"
+	}
+	c.mu.Lock()
+	c.mcRuns = append(c.mcRuns, map[string]interface{}{"module": module, "tool": "tlaps", "query": what, "outcome": outcome, "wall_s": round1(time.Since(t0).Seconds())})
+	c.mu.Unlock()
+	fmt.Printf("TLAPS %s %s: %s, %.1fs\n", module, what, outcome, time.Since(t0).Seconds())
+}
+
 func tail(s string, n int) string {
 	ls := strings.Split(strings.TrimRight(s, "\n"), "\n")
 	if len(ls) > n {
